@@ -299,7 +299,7 @@ def check_random(nparams, shift, count, draws, precision=None):
     g = RandomGenerator(ps)
     g.init(count)
     desc = "random nparams=%d shift=%d count=%d draws=%r precision=%r" % (nparams, shift, count, draws, precision)
-    sh.reset(99, _Forced(draws))
+    sh.reset(99, _Forced(draws), max_draws=max(5000, 2 * count * nparams + 100))
     try:
         rows = g.generate()
     except Exception as e:
@@ -452,6 +452,11 @@ def _shard(shard, col: Collector):
                         for prec in (None, 1e-1, 1e-3):
                             rec("random", {"nparams": nparams, "shift": shift, "count": count, "draws": draws, "precision": prec},
                                 check_random(nparams, shift, count, draws, prec), count >= 1)
+        for count in (100, 999, 1000, 1001, 2048, 4097):          # sample counts at which a vectorised path would switch on
+            for nparams in (2, 3, 4):
+                for shift in range(len(BOXES)):
+                    rec("random", {"nparams": nparams, "shift": shift, "count": count, "draws": [None], "precision": None},
+                        [(k, m[:300]) for k, m in check_random(nparams, shift, count, [None], None)], True)
         for k in range(len(HETERO)):
             for count in (1, 2, 4):
                 for draws in ([0.0], [ONE_MINUS], [0.5], [None], [0.0, ONE_MINUS], [ONE_MINUS, 0.0, 0.5], [0.3, 0.7, 0.1, 0.9]):
